@@ -6,6 +6,7 @@ import HC.Proofs.Replica
 import HC.Proofs.Growth
 import HC.Proofs.HashReq
 import HC.Proofs.ReplicaReopen
+import HC.Proofs.CreateTotal
 /-!
 # C03 — any honest proof is accepted and replicas converge to the writer's data
 
@@ -369,5 +370,78 @@ theorem replica_reopens (C : Crypto) (hC : TreeStore.HashWF C) (hT : TreeStore.T
 example (C : Crypto) (bs : Array Bytes) (pk : Bytes) (h : 2 ≤ bs.size) :
     HashReq.OkActs C bs pk 0 2 (ReplicaReopen.exchanges [.act (.fetch 1), .reopen, .act (.hash 1 0), .reopen, .act (.fetch 0)]) := by
   simp [ReplicaReopen.exchanges, HashReq.OkActs]
+
+/-- the block section of a created proof names the requested block -/
+theorem created_block_index (t : Tree) (f : File) (b : Codec.RequestBlock) (hash : Option Codec.RequestBlock) (seek : Option Codec.RequestSeek)
+    (upgrade : Option Codec.RequestUpgrade) (vp : ValuelessProof) (h : t.createValuelessProof f (some b) hash seek upgrade = .ok vp) :
+    ∃ ns, vp.block = some ⟨b.index, ns⟩ := by
+  have key : ∀ frm upto, CreateTotal.staged t f (some b) hash seek upgrade frm upto = .ok vp → ∃ ns, vp.block = some ⟨b.index, ns⟩ := by
+    intro frm upto hs
+    unfold CreateTotal.staged at hs
+    simp only [] at hs
+    split at hs
+    · cases hs
+    · split at hs
+      · cases hs
+      · split at hs
+        · cases hs
+        · split at hs
+          · cases hs
+          · rename_i p _
+            unfold CreateTotal.assemble at hs
+            simp only [] at hs
+            cases hn : p.nodes with
+            | none => rw [hn] at hs; simp at hs
+            | some ns =>
+              rw [hn] at hs
+              simp only [] at hs
+              split at hs
+              · rename_i bb hh uu e1 e2 e3
+                cases e1; cases hs; exact ⟨ns, rfl⟩
+              · cases hs
+              · cases hs
+              · cases hs
+  rw [CreateTotal.create_eq] at h
+  cases upgrade with
+  | none => exact key _ _ h
+  | some u => exact key _ _ h
+
+/-- **a block that is not held (e.g. cleared by the writer) yields no proof rather than a wrong one**: whatever else the
+    request asks for, `create_proof` for a block whose bit is not set answers `None` or an error, never a proof -/
+theorem cleared_block_no_proof (c : Core) (d : Disk) (b : Codec.RequestBlock) (hash : Option Codec.RequestBlock) (seek : Option Codec.RequestSeek)
+    (upgrade : Option Codec.RequestUpgrade) (hclr : c.bitfield.get b.index = false) (p : Proof) :
+    (c.createProof d (some b) hash seek upgrade).result ≠ .ok (some p) := by
+  unfold Core.createProof
+  cases hv : c.tree.createValuelessProof d.tree (some b) hash seek upgrade with
+  | error e => simp
+  | ok vp =>
+    obtain ⟨ns, hb⟩ := created_block_index c.tree d.tree b hash seek upgrade vp hv
+    simp only [hb, Core.getBlock, hclr, Bool.not_false, ite_true]
+    simp
+
+/-- … and a proof that *is* created for a block carries exactly what `get` returns for that index (the writer's block,
+    by `C01`): the value is not taken from anywhere else -/
+theorem created_block_value (c : Core) (d : Disk) (b : Codec.RequestBlock) (hash : Option Codec.RequestBlock) (seek : Option Codec.RequestSeek)
+    (upgrade : Option Codec.RequestUpgrade) (p : Proof) (h : (c.createProof d (some b) hash seek upgrade).result = .ok (some p)) :
+    ∃ blk, p.block = some blk ∧ blk.index = b.index ∧ (c.getBlock d b.index).result = .ok (some blk.value) := by
+  unfold Core.createProof at h
+  cases hv : c.tree.createValuelessProof d.tree (some b) hash seek upgrade with
+  | error e => rw [hv] at h; simp at h
+  | ok vp =>
+    obtain ⟨ns, hb⟩ := created_block_index c.tree d.tree b hash seek upgrade vp hv
+    rw [hv] at h
+    simp only [hb] at h
+    cases hg : (c.getBlock d b.index).result with
+    | error e => rw [hg] at h; simp at h
+    | ok o =>
+      cases o with
+      | none => rw [hg] at h; simp at h
+      | some v =>
+        rw [hg] at h
+        simp only [] at h
+        have := Except.ok.inj h
+        have hp := Option.some.inj this
+        rw [← hp]
+        exact ⟨_, rfl, rfl, rfl⟩
 
 end HC.C03
